@@ -8,3 +8,5 @@ def find(ctx, oblig, diag):
     if res.get("violates"):
         res["source"] = "exhaustive bounded search replayed on the real crate"
     return res
+
+standing = find
